@@ -40,7 +40,23 @@ func exitKind(f *ssa.Function, ret *ssa.Return) (kind string, classes []string) 
 	}
 	cl := map[string]bool{}
 	for _, v := range retVals(ret, len(ret.Results)-1) {
+		// `if err := f(); err != nil { return err }` with f inlined: err is a
+		// merge of f's results; under the `!= nil` edge the nil inputs do not
+		// reach this return
+		nonNil := false
+		for _, ce := range ctrlEdges(ret.Block()) {
+			if b, ok := ce.If.Cond.(*ssa.BinOp); ok && (b.Op == token.NEQ || b.Op == token.EQL) {
+				if (b.X == v && isNilConst(b.Y)) || (b.Y == v && isNilConst(b.X)) {
+					if (b.Op == token.NEQ) == ce.Taken {
+						nonNil = true
+					}
+				}
+			}
+		}
 		for _, leaf := range resolveAll(v) {
+			if nonNil && isNilConst(leaf) {
+				continue
+			}
 			cl[errClass(leaf)] = true
 		}
 	}
@@ -151,7 +167,7 @@ func closeDecision(r *Report, f *ssa.Function, only string) {
 				continue
 			}
 			// and the exchange reports errClose to the connection loop
-			paths, ok := blockPaths(e.True, 4000)
+			paths, ok := blockPathsE(e.If.Block(), e.rawTrue(), 4000)
 			if !ok {
 				r.Undecided(key, "too many paths to enumerate")
 				continue
@@ -205,6 +221,56 @@ func closeDecision(r *Report, f *ssa.Function, only string) {
 		bad := ""
 		seen := map[*ssa.BasicBlock]bool{}
 		var walk func(b *ssa.BasicBlock)
+		var checkEdge func(p, b *ssa.BasicBlock)
+		seenEdge := map[[2]*ssa.BasicBlock]bool{}
+		checkEdge = func(p, b *ssa.BasicBlock) {
+			if bad != "" || seenEdge[[2]*ssa.BasicBlock{p, b}] {
+				return
+			}
+			seenEdge[[2]*ssa.BasicBlock{p, b}] = true
+			iff, isIf := p.Instrs[len(p.Instrs)-1].(*ssa.If)
+			if !isIf || p.Succs[0] == p.Succs[1] {
+				walk(p)
+				return
+			}
+			cond, neg := iff.Cond, false
+			for {
+				u, isU := cond.(*ssa.UnOp)
+				if !isU || u.Op != token.NOT {
+					break
+				}
+				cond, neg = u.X, !neg
+			}
+			takenTrue := p.Succs[0] == b
+			if phi, _ := boolMerge(p); phi != nil && ssa.Value(phi) == cond {
+				// `x := a || b || c; if x`: each input of the merge is a trigger of its own
+				want := takenTrue != neg
+				for k, e := range phi.Edges {
+					if c, isC := constBool(e); isC {
+						if c == want {
+							checkEdge(p.Preds[k], p)
+						}
+						continue
+					}
+					if !allowed[e] {
+						bad = "on a condition other than req.Close, res.Close or p.Closing() (" + r.W.Pos(e.Pos()) + ")"
+						return
+					}
+					if !want {
+						bad = "when the close condition is false (" + r.W.Pos(e.Pos()) + ")"
+						return
+					}
+				}
+				return
+			}
+			if !allowed[cond] {
+				bad = "on a condition other than req.Close, res.Close or p.Closing() (" + r.W.Pos(iff.Cond.Pos()) + ")"
+				return
+			}
+			if takenTrue == neg {
+				bad = "when the close condition is false (" + r.W.Pos(iff.Cond.Pos()) + ")"
+			}
+		}
 		walk = func(b *ssa.BasicBlock) {
 			if seen[b] || bad != "" {
 				return
@@ -215,32 +281,7 @@ func closeDecision(r *Report, f *ssa.Function, only string) {
 				return
 			}
 			for _, p := range b.Preds {
-				iff, isIf := p.Instrs[len(p.Instrs)-1].(*ssa.If)
-				if !isIf {
-					walk(p)
-					continue
-				}
-				cond, neg := iff.Cond, false
-				for {
-					u, isU := cond.(*ssa.UnOp)
-					if !isU || u.Op != token.NOT {
-						break
-					}
-					cond, neg = u.X, !neg
-				}
-				takenTrue := p.Succs[0] == b
-				if p.Succs[0] == p.Succs[1] {
-					walk(p)
-					continue
-				}
-				if !allowed[cond] {
-					bad = "on a condition other than req.Close, res.Close or p.Closing() (" + r.W.Pos(iff.Cond.Pos()) + ")"
-					return
-				}
-				if takenTrue == neg {
-					bad = "when the close condition is false (" + r.W.Pos(iff.Cond.Pos()) + ")"
-					return
-				}
+				checkEdge(p, b)
 			}
 		}
 		walk(in.Block())
@@ -413,6 +454,16 @@ func c01(r *Report) {
 				}
 				if all {
 					ok = true
+				}
+			}
+			// `return ... || err == errClose`: the comparison itself is (an input of) the result
+			for _, ret := range returns(isc) {
+				for _, v := range retVals(ret, 0) {
+					for _, l := range resolveAll(v) {
+						if l == ssa.Value(b) {
+							ok = true
+						}
+					}
 				}
 			}
 		}
